@@ -132,8 +132,27 @@ func newCascadeRun(prog *CProg, controlled bool) *cascadeRun {
 	}
 	for i := range prog.Rules {
 		rule := prog.Rules[i]
+		// candidates which are dropped before the rules of an event are ordered: every third rule names its kind
+		// twice (the second occurrence is dropped), and for every second rule a decoy with the
+		// lowest priority number stands in front of it which is outside the scope of the cascades
+		kinds := []string{rule.Kind}
+		if i%3 == 1 {
+			kinds = []string{rule.Kind, rule.Kind}
+		}
+		if i%2 == 0 {
+			decoy := "decoy-" + rule.Name
+			if derr := cr.proc.AddRule(&engine.Rule{Name: decoy, Desc: "", KindMatch: []string{rule.Kind}, ScopeMatch: []string{"forbidden.zone"}, StateMatch: nil, Priority: 0,
+				Action: func(p engine.Processor, m engine.Monitor, e *engine.Event, tid uint64) error {
+					cr.mu.Lock()
+					cr.panics = append(cr.panics, "rule outside the scope of the cascade fired: "+decoy)
+					cr.mu.Unlock()
+					return nil
+				}}); derr != nil {
+				panic(derr)
+			}
+		}
 		err := cr.proc.AddRule(&engine.Rule{
-			Name: rule.Name, Desc: "", KindMatch: []string{rule.Kind}, ScopeMatch: []string{}, StateMatch: nil,
+			Name: rule.Name, Desc: "", KindMatch: kinds, ScopeMatch: []string{}, StateMatch: nil,
 			Priority: rule.Prio, SuppressionList: nil,
 			Action: func(p engine.Processor, m engine.Monitor, e *engine.Event, tid uint64) error {
 				cr.s.Gate("rule.start", m.ID(), rule.Name)
@@ -178,7 +197,7 @@ func newCascadeRun(prog *CProg, controlled bool) *cascadeRun {
 				return
 			}
 			cr.s.Gate("client.op", i+1)
-			root := cr.proc.NewRootMonitor(nil, nil)
+			root := cr.proc.NewRootMonitor(nil, engine.NewRuleScope(map[string]bool{"": true, "forbidden": false}))
 			cr.track(root)
 			root.SetFinishHandler(func(p engine.Processor) { cr.s.Record("p.handler", root.ID()) })
 			cr.s.Record("p.root", root.ID(), kind)
